@@ -227,10 +227,14 @@ def run_generated(plan, env, res, tr):
 
 
 def execute(plan, env):
-    if not env.cache.get("c06_loaded"):
-        from .c06_chunks import c06_tree
-        env.load_tree(c06_tree())
-        env.cache["c06_loaded"] = True
+    from ..core import load_fixed_tree
+    from .c06_chunks import c06_tree
+    broken = load_fixed_tree(env, "c06_loaded", c06_tree, "C09")
+    if broken:
+        res = Result()
+        res.violation = broken
+        res.digest = Trace().digest()
+        return res
     EoWriter = importlib.import_module("eolib.data.eo_writer").EoWriter
     res = Result()
     tr = Trace(keep=env.keep_trace)
